@@ -438,36 +438,33 @@ def rule_b(ctx):
                     comp = comp.subst(tmp_names[c], want_f[c].subst(f"IN{T_i[(axes[c], 'ijk'[:d])][1][0]}", Poly.atom(f"V{T_i[(axes[c], 'ijk'[:d])][1][0]}")))
                 ctx.ob(R, f_inv.qname, f"dim {d}: voxel(coordinate(V))[{mi}] == floor(V[{mi}])", comp == Poly.atom(f"V{mi}"),
                        f"composition with the table-prescribed forward map gives {comp!r} for matrix component {mi}", f_inv.node)
-    # __init__: voxel_size[axis] = img.voxel_size[pos], origin provenance
+    # __init__: the constructor is folded statement by statement on a symbolic image (statements outside the folding language are
+    # skipped); what it leaves in self.voxel_size / indexing / dim / axes / origin is compared with the table, per dimension
     init = m.func(CS, "CoordinateSystem.__init__")
-    loops = axis_loops(m, init, m.func(IDX, "interpret_indexing"))
-    ctx.need(loops, "CoordinateSystem.__init__: voxel_size loop not found")
-    al = loops[0]
-    ctx.instance(R)
-    found = False
-    for st in al.loop.body:
-        if isinstance(st, ast.Assign) and isinstance(st.targets[0], ast.Subscript):
-            t = norm(rename(st.targets[0], al.roles))
-            v = norm(rename(st.value, al.roles))
-            found = True
-            ctx.ob(R, init.qname, "voxel_size[axis] = img.voxel_size[pos]", t == "self.voxel_size[$e]" and v.endswith(".voxel_size[$p]"),
-                   f"{t} = {v}", st)
-    ctx.need(found, "CoordinateSystem.__init__: no store in the voxel_size loop")
-    args = al.call.args
-    ctx.ob(R, init.qname, "voxel_size loop looks up interpret_indexing(axis, self.indexing) over self.axes",
-           norm(al.iterable) == "self.axes" and len(args) == 2 and norm(args[1]) == "self.indexing" and al.roles.get(getattr(args[0], "id", None)) == "$e",
-           norm(al.call), al.call)
-    attrs = {}
-    for st in ast.walk(init.node):
-        if isinstance(st, (ast.Assign, ast.AnnAssign)):
-            tgt = st.targets[0] if isinstance(st, ast.Assign) else st.target
-            if isinstance(tgt, ast.Attribute) and norm(tgt.value) == "self" and st.value is not None:
-                attrs[tgt.attr] = norm(st.value)
     p0 = init.params[1] if len(init.params) > 1 else "img"
-    for attr, want in (("_coordinate_of_origin_voxel", f"{p0}.origin"), ("indexing", f"{p0}.indexing"), ("dim", f"{p0}.space_dim")):
-        ctx.ob(R, init.qname, f"self.{attr} is the image's {want.split('.')[1]}", attrs.get(attr) == want, f"self.{attr} = {attrs.get(attr)}", init.node)
-    ctx.ob(R, init.qname, "self.axes is the Cartesian prefix 'xyz'[:dim]", attrs.get("axes") in ("'xyz'[:self.dim]", f"'xyz'[:{p0}.space_dim]"),
-           f"self.axes = {attrs.get('axes')}", init.node)
+    for d in (1, 2, 3):
+        ctx.instance(R)
+        axes = "xyz"[:d]
+        origin = Cols([Poly.atom(f"o{c}") for c in range(d)])
+        img = Obj("img", {"indexing": "ijk"[:d], "space_dim": d, "voxel_size": [Poly.atom(f"hm{k}") for k in range(d)], "origin": origin,
+                          "dimensions": [Poly.atom(f"D{k}") for k in range(d)], "img": Obj("arr", {"shape": tuple(10 + k for k in range(d + 1))})})
+        me = Obj("self")
+        fo = Folder()
+        fo.func_stack.append(init.node)
+        env = {init.params[0]: me, p0: img}
+        skipped = 0
+        for st in init.node.body:
+            try:
+                fo.stmt(st, env)
+            except (Refuse, Raised):
+                skipped += 1
+        vs_got = me.fields.get("voxel_size")
+        want_vs = {a: Poly.atom(f"hm{T_i[(a, 'ijk'[:d])][1][0]}") for a in axes}
+        ctx.ob(R, init.qname, f"dim {d}: voxel_size[axis] = img.voxel_size[pos(axis)] for every Cartesian axis (pos from the axis table)", isinstance(vs_got, dict) and vs_got == want_vs,
+               f"constructor leaves voxel_size = {vs_got!r}; the table prescribes {want_vs!r}", init.node)
+        ctx.ob(R, init.qname, f"dim {d}: self._coordinate_of_origin_voxel is the image's origin", me.fields.get("_coordinate_of_origin_voxel") is origin, repr(me.fields.get("_coordinate_of_origin_voxel")), init.node)
+        ctx.ob(R, init.qname, f"dim {d}: self.indexing / dim / axes are the image's indexing, space_dim and 'xyz'[:dim]",
+               (me.fields.get("indexing"), me.fields.get("dim"), me.fields.get("axes")) == ("ijk"[:d], d, axes), repr((me.fields.get("indexing"), me.fields.get("dim"), me.fields.get("axes"))), init.node)
     # Image.voxel_size: dimensions[i] / num_voxels[i]
     vs = m.func(IMG, "Image.voxel_size")
     ret = [n for n in ast.walk(vs.node) if isinstance(n, ast.Return)]
